@@ -97,6 +97,11 @@ var modelOrbits = map[string][][]rune{
 	"RB": {{']'}}, "RC": {{'}'}}, "CARET": {{'^'}}, "TILDE": {{'~'}}, "US": {{'_'}}, "DEL": {{0x7f}},
 	"D0": {{'0'}}, "C10": {{0x10}}, "D9": {{'9'}}, "C19": {{0x19}}, "SP": {{' '}}, "NUL": {{0}},
 	"DASH": {{'-'}}, "CR": {{'\r'}},
+	// Fold.tla's CaselessTable: runes without case variants of 2, 3 and 4 bytes.
+	"SEC": {{'\u00A7'}, {'\u00A9'}, {'\u00B0'}, {'\u00AB'}, {'\u00BF'}, {'\u00A3'}, {'\u00B7'}},
+	"MUL": {{'\u00D7'}, {'\u00F7'}, {'\u0660'}},
+	"BUL": {{'\u2022'}, {'\u20AC'}, {'\u4E16'}, {'\u2028'}},
+	"EMO": {{'\U0001F600'}, {'\U0001F3F4'}, {'\U00010348'}},
 }
 
 // modelBytes is Fold.tla's ModelTable, repeated here only to cross-check the
@@ -104,6 +109,7 @@ var modelOrbits = map[string][][]rune{
 var modelBytes = map[string][]int{
 	"K": {1, 1, 3}, "S": {1, 1, 2}, "SIG": {2, 2, 2}, "A": {1, 1}, "E": {2, 2}, "ONE": {1},
 	"AT": {1}, "BQ": {1}, "LB": {1}, "LC": {1}, "BSL": {1}, "PIPE": {1}, "RB": {1}, "RC": {1}, "CARET": {1}, "TILDE": {1},
+	"SEC": {2}, "MUL": {2}, "BUL": {3}, "EMO": {4},
 	"US": {1}, "DEL": {1}, "D0": {1}, "C10": {1}, "D9": {1}, "C19": {1}, "SP": {1}, "NUL": {1}, "DASH": {1}, "CR": {1},
 }
 
@@ -225,7 +231,8 @@ func replayFold(args []string) error {
 		}
 		// Concretisation 0: the runes the table was written for;
 		// concretisation 1: seeded choice among orbits of the same shape.
-		alts := []map[string]int{{}, {"SIG": rng.IntN(3), "A": rng.IntN(4), "E": rng.IntN(4), "ONE": rng.IntN(5)}}
+		alts := []map[string]int{{}, {"SIG": rng.IntN(3), "A": rng.IntN(4), "E": rng.IntN(4), "ONE": rng.IntN(5),
+			"SEC": rng.IntN(7), "MUL": rng.IntN(3), "BUL": rng.IntN(4), "EMO": rng.IntN(3)}}
 		seen := ""
 		for ci, alt := range alts {
 			s, err := concretise(v.S, alt)
@@ -380,6 +387,9 @@ func replaySplit(args []string) error {
 // foldPool is rich in orbits with more than two members and in orbits whose
 // members differ in UTF-8 length.
 var foldPool = []rune{
+	// caseless runes of 2, 3 and 4 bytes; U+00E7/U+00C7 and U+00E9 share their last byte with U+00A7 / U+00A9
+	'\u00A7', '\u00A9', '\u00B0', '\u00AB', '\u00BF', '\u00A3', '\u00B7', '\u00D7', '\u00F7', '\u00E7', '\u00C7',
+	'\u2022', '\u20AC', '\U0001F600', '\U0001F3F4', '\u0660',
 	'k', 'K', '\u212A', 's', 'S', '\u017F', '\u03C3', '\u03C2', '\u03A3',
 	'a', 'A', '\u00E9', '\u00C9', '1', ' ', '-',
 	'i', 'I', '\u0130', '\u0131', // dotted/dotless i: singletons under simple folding
